@@ -8,6 +8,8 @@ open PV.HT
 
 structure St where
   t : Table := empty
+  t2 : Table := empty             -- the second table (ops ins2 / rem2 / get2 / keys2 / vals2)
+  m2 : List (Ptr × Ptr) := []
   m : List (Ptr × Ptr) := []      -- reference map as an association list (spec)
   l : PList := []
   dead : Bool := false
@@ -26,9 +28,70 @@ def fmtLast : Option Ptr → String
   | none => "nf"
   | some v => toString v.toNat
 
+def listLine (ks sp : List Ptr) : String :=
+  "[" ++ joinU64 ks ++ "]" ++ (if sortedU ks = sp then "" else " SPECDIFF [" ++ joinU64 sp ++ "]")
+
 def step (s : St) (toks : List String) : IO (St × Bool) := do
   let u (x : String) : Option Ptr := x.toNat?.map UInt64.ofNat
   match toks with
+  | ["insf", k, v] =>              -- insert while the allocator fails: overwrite if present, otherwise nothing changes
+    match u k, u v with
+    | some k, some v =>
+      match insertOOM s.t k v with
+      | none => IO.println "ub"; return ({ s with dead := true }, true)
+      | some t' => IO.println "ok"; return ({ s with t := t', m := if (specGet s.m k).isSome then specIns s.m k v else s.m }, false)
+    | _, _ => IO.println "bad-op"; return (s, false)
+  | ["ins2", k, v] =>
+    match u k, u v with
+    | some k, some v =>
+      match insert s.t2 k v with
+      | none => IO.println "ub"; return ({ s with dead := true }, true)
+      | some t' => IO.println "ok"; return ({ s with t2 := t', m2 := specIns s.m2 k v }, false)
+    | _, _ => IO.println "bad-op"; return (s, false)
+  | ["rem2", k] =>
+    match u k with
+    | some k =>
+      match remove s.t2 k with
+      | none => IO.println "ub"; return ({ s with dead := true }, true)
+      | some t' => IO.println "ok"; return ({ s with t2 := t', m2 := specRem s.m2 k }, false)
+    | _ => IO.println "bad-op"; return (s, false)
+  | ["get2", k] =>
+    match u k with
+    | some k =>
+      match lookup s.t2 k with
+      | none => IO.println "ub"; return ({ s with dead := true }, true)
+      | some r =>
+        let sp := specGet s.m2 k
+        IO.println (fmtGet r ++ (if sp = r then "" else " SPECDIFF " ++ fmtGet sp))
+        return (s, false)
+    | _ => IO.println "bad-op"; return (s, false)
+  | ["keys2"] => IO.println (listLine (keys s.t2) (sortedU (s.m2.map (·.1)))); return (s, false)
+  | ["vals2"] => IO.println (listLine (values s.t2) (sortedU (s.m2.map (·.2)))); return (s, false)
+  | ["lbvf", v] =>                 -- through the harness compare function: stored value >> 8 = asked word
+    match u v with
+    | some v =>
+      let p : Ptr → Bool := fun x => x >>> 8 == v
+      IO.println (listLine (lookupByValueF s.t p) (sortedU ((s.m.filter (fun e => p e.2)).map (·.1))))
+      return (s, false)
+    | _ => IO.println "bad-op"; return (s, false)
+  | ["lappf", d] =>
+    match u d with
+    | some d => let l' := lAppendOOM s.l d
+                IO.println ("[" ++ joinU64 l' ++ "]" ++ (if l' = s.l then "" else " SPECDIFF"))
+                return ({ s with l := l' }, false)
+    | _ => IO.println "bad-op"; return (s, false)
+  | ["lpref", d] =>
+    match u d with
+    | some d => let l' := lPrependOOM s.l d
+                IO.println ("[" ++ joinU64 l' ++ "]" ++ (if l' = s.l then "" else " SPECDIFF"))
+                return ({ s with l := l' }, false)
+    | _ => IO.println "bad-op"; return (s, false)
+  | ["leach"] =>
+    let r := lForeach s.l
+    IO.println ("[" ++ joinU64 r ++ "]" ++ (if r = s.l then "" else " SPECDIFF [" ++ joinU64 s.l ++ "]"))
+    return (s, false)
+  | ["lfree"] => IO.println "[]"; return ({ s with l := [] }, false)
+  | ["api"] => IO.println "null-api=ok"; return (s, false)
   | ["ins", k, v] =>
     match u k, u v with
     | some k, some v =>
